@@ -27,6 +27,8 @@ PLAN = {
     # third round (one change per property)
     "C05-3": [("C05", [])], "C10-3": [("C10", [])], "C12-3": [("C12", [])], "C13-3": [("C13", [])],
     "C14-3": [("C14", [])], "C16-3": [("C16", [])],
+    # fourth round
+    "C10-4": [("C10", [])], "C11-4": [("C11", [])], "C15-4": [("C15", [])], "C19-4": [("C19", [])],
 }
 
 
